@@ -164,6 +164,9 @@ func (x *Exec) load(p *Pointer) Value {
 	if p == nil {
 		x.abort("PANIC", "nil pointer dereference")
 	}
+	if x.guards != nil {
+		x.checkGuardPtr(p)
+	}
 	v := p.Obj.Val
 	for _, i := range p.Path {
 		v = v.(*Agg).Elems[i]
@@ -174,6 +177,9 @@ func (x *Exec) load(p *Pointer) Value {
 func (x *Exec) store(p *Pointer, val Value) {
 	if p == nil {
 		x.abort("PANIC", "nil pointer dereference (store)")
+	}
+	if x.guards != nil {
+		x.checkGuardPtr(p)
 	}
 	val = copyVal(val)
 	if len(p.Path) == 0 {
